@@ -70,6 +70,9 @@ def _is_nfc(p):
     return unicodedata.normalize('NFC', p) == p
 
 
+_NFC_INVARIANT = [(c, p) for c, p in _PASS if _is_nfc(p)]
+
+
 def _fn(network):
     return ref.p2pkh_fn(bytes.fromhex(chain.NETWORKS[network]['p2pkh']))
 
@@ -169,7 +172,7 @@ def chk_noec(case, col, rnd):
         if api == 'HDKey-default' and compressed:
             pub = ec.pub_from_secret(int.from_bytes(secret, 'big'), True)
             waddr = chain.address_segwit(network, 0, ec.hash160(pub))
-            if got == ref.encrypt(secret, compressed, pw, address=waddr, normalize=False):
+            if got == ref.encrypt(secret, compressed, pw, address=waddr):
                 key = K_HD_WITNESS
         elif sensitive and got == ref.encrypt(secret, compressed, pw, address_fn=fn, normalize=False):
             key = K_NFC
@@ -434,6 +437,8 @@ def gen_noec(rnd, g):
     scls = SECRET_CLASSES[(g // 2) % len(SECRET_CLASSES)] if g % 3 else rnd.choice(SECRET_CLASSES)
     pcls, pw = _PASS[(g * 5 + g // len(_PASS)) % len(_PASS)]
     compressed = True if api == 'HDKey-default' else bool((g + g // 7) % 2)
+    if api == 'HDKey-default' and not _is_nfc(pw):      # one named feature per case: keep the passphrase feature out
+        pcls, pw = _NFC_INVARIANT[g % len(_NFC_INVARIANT)]
     return {'kind': 'noec', 'api': api, 'network': nets[(g * 3 + g // len(nets)) % len(nets)] if g % 4 else 'bitcoin',
             'compressed': compressed, 'secret': _secret(rnd, scls).hex(), 'scls': scls, 'pass': pw, 'pcls': pcls}
 
@@ -454,6 +459,8 @@ def gen_ec(rnd, g):
             salt = salt[:4]
     api = ['Key', 'func', 'HDKey-legacy', 'Key'][(g // 4) % 4]
     network = 'bitcoin' if g % 3 != 2 else nets[(g // 3) % len(nets)]
+    if chain.NETWORKS[network]['p2pkh'] != chain.NETWORKS['bitcoin']['p2pkh'] and not _is_nfc(pw):
+        pcls, pw = _NFC_INVARIANT[g % len(_NFC_INVARIANT)]      # one named feature per case
     return {'kind': 'ec', 'api': api, 'network': network, 'compressed': bool((g // 2) % 2), 'pass': pw, 'pcls': pcls,
             'salt': salt.hex(), 'seedb': rnd.randbytes(24).hex(), 'lot': lot, 'seq': seq, 'lotcls': lotcls,
             'salt_form': rnd.choice(['bytes', 'hex']), 'seed_form': rnd.choice(['bytes', 'hex'])}
